@@ -681,6 +681,11 @@ func (p *RPCCompiler) buildRequiredFieldsMessage(inputMessage Message, rpcMessag
 
 	representations := representationsValue.Array()
 	for _, representation := range representations {
+		// Like the entity lookup itself, only use the representations of the entity type the field belongs to.
+		if !isAllowedForTypename(keyField.Message, representation) {
+			continue
+		}
+
 		element := contextList.NewElement()
 		msg := element.Message()
 
